@@ -30,6 +30,7 @@
 #include <unistd.h>
 #include <signal.h>
 #include <sys/wait.h>
+#include <sys/resource.h>
 #include "givinteger.h"
 #include "gfq.h"
 #include "gfqext.h"
@@ -158,7 +159,7 @@ template <class Base> struct ExtS : public Session {
             std::cout.flush();
             pid_t pid = fork();
             if (pid == 0) {
-                close(fd[0]); alarm(5);
+                close(fd[0]); { struct rlimit rl; rl.rlim_cur = 10; rl.rlim_max = 10; setrlimit(RLIMIT_CPU, &rl); } alarm(300);   // CPU limit (load-independent); the alarm only covers a sleeping child
                 Integer back(77); F->convert(back, z);
                 std::ostringstream oo; oo << back; std::string res = oo.str();
                 if (write(fd[1], res.c_str(), res.size()) < 0) _exit(3);
